@@ -165,6 +165,46 @@ def _staggered_once(job):
     return {"line": _render(job["folders"], prods, raised, job.get("damaged", ())), "extra": {n: prods.get(n) for n, _ in job.get("extra", [])}}
 
 
+def _shared_dir(job):
+    """members of different folders share a directory that does not exist yet and has no entry of its own: all
+    workers are made to arrive at os.mkdir() for it together (a barrier in the harness, stdlib call wrapped)"""
+    import multiprocessing
+    import py7zr
+    os.chdir(job["cwd"])
+    k = len(job["folders"])
+    bar = multiprocessing.Barrier(k)
+    real = os.mkdir
+    waited = threading.local()
+
+    def patched(path, mode=0o777, *a, **kw):
+        if os.path.basename(os.fspath(path)) == job["shared"] and not getattr(waited, "done", False):
+            waited.done = True
+            try:
+                bar.wait(timeout=1.5)
+            except Exception:  # noqa  (broken barrier: somebody did not need the mkdir)
+                pass
+        return real(path, mode, *a, **kw)
+
+    os.mkdir = patched
+    raised = None
+    dest = tempfile.mkdtemp(dir=job["cwd"])
+    out = os.path.join(dest, "o")
+    try:
+        with py7zr.SevenZipFile(job["path"], "r", mp=job["mp"]) as z:
+            z.extractall(out)
+    except Exception as e:  # noqa
+        raised = "?" + type(e).__name__
+    finally:
+        os.mkdir = real
+    prods = {}
+    for dp, _, fn in os.walk(out):
+        for n in fn:
+            full = os.path.join(dp, n)
+            prods[os.path.relpath(full, out)] = open(full, "rb").read()
+    shutil.rmtree(dest, ignore_errors=True)
+    return {"line": _render(job["folders"], prods, raised)}
+
+
 def _concurrent_objects(job):
     """several independent SevenZipFile objects on the same file, extracting at once"""
     import py7zr
@@ -473,6 +513,36 @@ def run(ctx):
                 out = out.replace("raise=" + r, "raise=ANY")
             return out
         ctx.correspond_model("conc.staggered", lines, impl, translate2, classes)
+
+        # workers meeting at the creation of a shared parent directory
+        import py7zr
+        hjobs, hmeta = [], []
+        for k in (2, 3, 4):
+            for depth, shared in ((1, "shared"), (2, "shared")):
+                path = os.path.join(tmp, "shared_%d_%d.7z" % (k, depth))
+                prefix = "shared/" if depth == 1 else "top/shared/"
+                folders = []
+                for i in range(k):
+                    mem = [("%sm%d_%d.bin" % (prefix, i, j), rng.randbytes(rng.randrange(24, 500))) for j in range(rng.randrange(1, 3))]
+                    with py7zr.SevenZipFile(path, "w" if i == 0 else "a", filters=COPY) as z:
+                        for n_, d_ in mem:
+                            z.writestr(d_, n_)
+                    folders.append(mem)
+                for mp in (False, True):
+                    for _ in range(2):
+                        hjobs.append({"path": path, "folders": folders, "mp": mp, "cwd": tmp, "shared": shared})
+                        hmeta.append((k, depth, mp))
+        res = sandbox.pmap(_shared_dir, hjobs, timeout=120, workers=8)
+        for (k, depth, mp), job, (st, val) in zip(hmeta, hjobs, res):
+            conf = {"folders": k, "shared_directory_depth": depth, "mode": "processes" if mp else "threads", "output": "directory without directory entries"}
+            ctx.case(key=("shared-dir", k, depth, mp), nontrivial=True, sample=conf)
+            ctx.count("shared-dir", "processes" if mp else "threads")
+            if st != "ok":
+                ctx.fail("C13:shared_dir_" + st, "extraction did not complete: %s" % str(val)[:300], conf)
+                continue
+            want = _render(job["folders"], {n: d for mem in job["folders"] for n, d in mem}, None)
+            if val["line"] != want:
+                ctx.fail("C13:schedule_dependent_output", "workers creating a shared parent directory at the same time: %s" % val["line"], dict(conf, line=val["line"]))
 
         # concurrent independent objects
         res = sandbox.pmap(_concurrent_objects, cjobs, timeout=120)
